@@ -2,15 +2,16 @@
    Statements over Model/Component.v, Model/Storage.v, Base/Pchip.v; proofs in Proofs/ComponentProofs.v.
 
    PARTIAL, named so:
-   * the interpolated inverse is proved EXACT AT THE 201 TABLE POINTS (C06_inverse_exact_at_table); the
-     property's "within 0.5 % of rated power" between table points is not proved -- it is measured by
-     the correspondence run, and the implementation exceeds it for rough admissible curves (finding
-     F-C06-1); the strict-balance 1e-6 figure concerns SciPy's iterative solvers, which no Gallina
+   * the interpolated inverse is proved EXACT AT THE 201 TABLE POINTS (C06_inverse_exact_at_table) and, between
+     them, to STAY INSIDE ITS TABLE CELL (C06_inverse_stays_in_table_cell; so the energy it can "create" is below
+     one table step = 1 % of rated power, C06_inverse_gain_below_one_step); the property's "within 0.5 % of
+     rated power" between table points is not proved -- it is measured by the correspondence run, and the
+     implementation exceeds it for rough admissible curves (finding F-C06-1); the strict-balance 1e-6 figure concerns SciPy's iterative solvers, which no Gallina
      model stands for: measured only.
    * for a serial drive train the product of the stage efficiencies is exact at the eleven grid loads
      0, 0.1 .. 1.0 (C06_serial_at_grid); between them the code interpolates the products. *)
 From Coq Require Import QArith Qabs List Bool Lqa.
-From Feems Require Import Base.Num Base.Pchip Model.Component Model.Storage Proofs.ComponentProofs.
+From Feems Require Import Base.Num Base.Pchip Model.Component Model.Storage Proofs.ComponentProofs Proofs.PchipMono.
 Import ListNotations.
 Open Scope Q_scope.
 
@@ -35,6 +36,34 @@ Proof. split; [apply clip_bounds|apply clip_id]. Qed.
 Theorem C06_inverse_exact_at_table rated f k : accepted rated f = true -> (k <= 200)%nat ->
   inv rated f (fwd rated f (table_out rated k)) == table_out rated k.
 Proof. apply inverse_exact_at_table. Qed.
+
+(* BETWEEN the table points the interpolated inverse stays inside its table cell: for a supply x between two
+   consecutive table supplies the returned delivery lies between the two table deliveries -- SciPy's PCHIP slopes
+   for increasing data lie in the Fritsch-Carlson box, so every cubic piece is a convex combination of control
+   values inside the cell (Proofs/PchipMono.v).  Hence the energy the default inverse can "create" between table
+   points is below one table step, 1 % of the rated power; the property's 0.5 % figure is measured by the stream
+   (known finding F-C06-1 where it fails). *)
+Theorem C06_inverse_stays_in_table_cell rated f k x : accepted rated f = true -> (k < 200)%nat ->
+  fwd rated f (table_out rated k) <= x < fwd rated f (table_out rated (S k)) ->
+  table_out rated k <= inv rated f x <= table_out rated (S k).
+Proof. apply inverse_between_table. Qed.
+
+Theorem C06_inverse_gain_below_one_step rated f k x : accepted rated f = true -> (k < 200)%nat ->
+  0 <= table_out rated k ->
+  fwd rated f (table_out rated k) <= x < fwd rated f (table_out rated (S k)) ->
+  inv rated f x <= x + rated / 100.
+Proof.
+  intros Ha Hk H0 Hx. destruct (inverse_between_table rated f k x Ha Hk Hx) as [_ B].
+  assert (S : table_out rated (S k) == table_out rated k + rated / 100).
+  { unfold table_out. rewrite Nat2Z.inj_succ. unfold Z.succ. rewrite inject_Z_plus. field. }
+  assert (F : table_out rated k <= fwd rated f (table_out rated k)).
+  { destruct (fwd_ratio rated f (table_out rated k)) as [E [B1 B2]].
+    set (s0 := fwd rated f (table_out rated k)) in *. set (e0 := eff f (Qabs (table_out rated k) / rated)) in *.
+    destruct (Qlt_le_dec s0 0) as [N|N].
+    - assert (0 < (- s0) * e0) by (apply Qmult_lt_0_compat; lra). lra.
+    - assert (0 <= s0 * (1 - e0)) by (apply Qmult_le_0_compat; lra). lra. }
+  lra.
+Qed.
 
 (* scalar call and array element agree: they dispatch identically except at exactly 0, where the
    scalar path divides 0 by the efficiency and the array path reads the (0,0) table point *)
@@ -72,6 +101,8 @@ Proof. vm_compute. repeat split. Qed.
 Print Assumptions C06_no_energy_created.
 Print Assumptions C06_clamp.
 Print Assumptions C06_inverse_exact_at_table.
+Print Assumptions C06_inverse_stays_in_table_cell.
+Print Assumptions C06_inverse_gain_below_one_step.
 Print Assumptions C06_scalar_equals_array.
 Print Assumptions C06_serial_at_grid.
 Print Assumptions C06_storage.
